@@ -58,7 +58,8 @@ def check(ck):
     with ck.rule("R2"):
         for name in ("Engine.execute", "Engine.subscribe"):
             f = repo.func("tartiflette/engine.py", name)
-            c = FuncView(f).maybe_call("_cached_parse_and_validate_query")
+            from ..q import inlined_view as _iv
+            c = _iv(repo, f).maybe_call("_cached_parse_and_validate_query")
             ok = c is not None and [unparse(a) for a in c.args] == [f.positional_params[1], "self._schema"] and not c.keywords
             ck.ob(f"{name}: the cached function is called with exactly (query, self._schema)", ok, f, c or f.node, construct=f"key:{name}")
         sc = repo.cls("tartiflette/schema/schema.py", "GraphQLSchema")
